@@ -30,17 +30,18 @@ func runC03(c *mon.Ctx) {
 	g := model.NewGen(c.Seed*7717 + int64(c.Shard))
 	// (c) registered extensions with unusual struct layouts through the whole
 	// sign -> decode -> verify path
-	if err := extprof.Register(extprof.ExtNestedName, extprof.MixinName); err != nil {
+	if err := extprof.Register(extprof.ExtNestedName, extprof.MixinName, extprof.ExtOwnerName); err != nil {
 		c.Violation("harness/register", err.Error(), nil)
 		return
 	}
 	for i := 0; i < c.N(400, 8000); i++ {
 		a := g.Valid(2)
-		name := extprof.ExtNestedName
-		if i%2 == 1 {
-			name = extprof.MixinName
-		}
+		name := []string{extprof.ExtNestedName, extprof.MixinName, extprof.ExtOwnerName}[i%3]
 		a.Canon, a.Profile = name, model.SP(name)
+		var ownerComps []model.Comp
+		if name == extprof.ExtOwnerName {
+			ownerComps, a.Comps = a.Comps, nil
+		}
 		k := keys.New(keys.AlgNames[i%7], g.R.Intn(3))
 		if pn, pv, fr := mon.Guard(func() {
 			c.Eval()
@@ -50,6 +51,18 @@ func runC03(c *mon.Ctx) {
 				return
 			}
 			var ext *string
+			if name == extprof.ExtOwnerName {
+				// this extension adds no codecs of its own: it inherits the base type's
+				var scs []psatoken.ISwComponent
+				for j := range ownerComps {
+					scs = append(scs, &extprof.OwnerComponent{SwComponent: *obs.RealComp(&ownerComps[j]), Owner: model.SP("owner")})
+				}
+				if err := x.SetSoftwareComponents(scs); err != nil {
+					c.Violation("C03/layout-ext/setters-refused", err.Error(), nil)
+					return
+				}
+				a.Comps = ownerComps
+			}
 			switch t := x.(type) {
 			case *extprof.ExtNestedClaims:
 				t.Cache = "bookkeeping"
